@@ -7,6 +7,10 @@ Read out of the function bodies (regex over the text, comments stripped):
   src_clone_copies      Value::clone_into, `Str(ArenaCow::Owned(s))` arm: builds a fresh
                         `ArenaString::from_str(arena, ...)` (true) or a Borrowed alias
                         (`as_arena_str` / `.clone()`) of the same bytes (false)
+  src_clone_rebuilds    Value::clone_into, Array arm: a new Vec in the target arena, every element cloned
+  src_promote_rebuilds  Value::promote, Array arm: a new Vec in the persistent arena and EVERY element
+                        promoted recursively, without a shortcut that moves a nested value as it is
+                        (an empty nested Vec has no buffer but still carries its allocator)
   src_bind_promotes     eval_function_call: the argument bound as a parameter slot goes through
                         `.promote(&self.pool, self.frame)` when a frame arena is in use
   src_relocate_stages   relocate_return_value, frame-string branch: the copy to the persistent
@@ -84,6 +88,18 @@ def generate():
     else:
         raise TranslatorError("clone_into: the Owned-string arm neither copies with ArenaString::from_str nor aliases")
 
+    # ---- Value::clone_into / Value::promote, Array arms: every nested value is rebuilt unconditionally
+    flags["src_clone_rebuilds"] = (
+        "Value::Array(items)=>{letmutnew=Vec::with_capacity_in(items.len(),arena);"
+        "foriteminitems{new.push(item.clone_into(arena));}Value::Array(new)}" in b)
+    pb = squash(fn_body(rt, "promote"))
+    if "Value::Array(items)=>" not in pb:
+        raise TranslatorError("Value::promote: the Array arm was not found")
+    flags["src_promote_rebuilds"] = (
+        "Value::Array(items)=>{letmutpromoted=Vec::with_capacity_in(items.len(),pool.arena());"
+        "foriteminitems{promoted.push(item.promote(pool,frame));}Value::Array(promoted)}" in pb
+        and "Value::Str(cow)=>Value::Str(cow.promote(pool,frame))" in pb)
+
     # ---- parameter binding in eval_function_call
     b = squash(fn_body(rt, "eval_function_call"))
     m = re.search(r"for\(\(param,maybe_local\),arg\)in.*?param_scope\.push\(LocalSlot\{[^}]*\}\);", b)
@@ -148,8 +164,8 @@ def generate():
     lines = ["(* GENERATED by translator/gen_mem.py from src/runtime.rs and src/arena/cow.rs — do not edit. *)",
              "(* Where the evaluator copies/promotes before storing, and the order of the staging in",
              "   relocate_return_value.  Properties/C02.v requires all of them to be true. *)"]
-    for k in ("src_clone_copies", "src_bind_promotes", "src_relocate_stages", "src_relocate_arrays",
-              "src_stores_promote", "src_promote_copies"):
+    for k in ("src_clone_copies", "src_clone_rebuilds", "src_promote_rebuilds", "src_bind_promotes",
+              "src_relocate_stages", "src_relocate_arrays", "src_stores_promote", "src_promote_copies"):
         lines.append("Definition %s : bool := %s." % (k, "true" if flags[k] else "false"))
     return "\n".join(lines) + "\n"
 
